@@ -12,7 +12,7 @@ import (
 
 func runC02(c *Ctx) {
 	r := c.R
-	r.Explanation = "Decides, on every feasible path of the traversal function, that exactly one status hand-off happens per traversal end and none otherwise, and what it carries (a warning holding exactly the node's error iff it failed; a completion holding exactly the node's own id, and that id as complete sink iff the node's Type() is sink, iff the event was dropped or the node is a leaf); that the collector merges every field of Status (enumerated from the type) from the received value only; that the verdict is getError(status, ctx.Err(), this graph's two thresholds) in that order; the full decision table of getError over the orderings of the two counts against their thresholds; and the threshold setters/getters (negative rejected without store, store/read on the graph of the given type). Multiset equalities over real runs under cancellation are not decided, only that entries cannot be invented. C02.accessors: Complete()/CompleteSinks() return the fields the collector filled; C02.persist: graphs holding thresholds are never deleted or replaced. C02.types: the nine stock Type() implementations are unconditional constants of their role. C02.merge status-readonly: no method of Status writes through the Status's id lists. C02.registered: single-store and one-section; C02.persist: look-up and insert in one write-locked section. C02.registered also: graphMap.Range is sync.Map.Range."
+	r.Explanation = "Decides, on every feasible path of the traversal function, that exactly one status hand-off happens per traversal end and none otherwise, and what it carries (a warning holding exactly the node's error iff it failed; a completion holding exactly the node's own id, and that id as complete sink iff the node's Type() is sink, iff the event was dropped or the node is a leaf); that the collector merges every field of Status (enumerated from the type) from the received value only; that the verdict is getError(status, ctx.Err(), this graph's two thresholds) in that order; the full decision table of getError over the orderings of the two counts against their thresholds; and the threshold setters/getters (negative rejected without store, store/read on the graph of the given type). Multiset equalities over real runs under cancellation are not decided, only that entries cannot be invented. C02.accessors: Complete()/CompleteSinks() return the fields the collector filled; C02.persist: graphs holding thresholds are never deleted or replaced. C02.types: the nine stock Type() implementations are unconditional constants of their role. C02.merge status-readonly: no method of Status writes through the Status's id lists. C02.registered: single-store and one-section; C02.persist: look-up and insert in one write-locked section. C02.registered also: graphMap.Range is sync.Map.Range. C01.scope graph-of-type: a pipeline set is changed (Store / Delete) only in a graph looked up in Broker.graphs in the same function."
 	r.NotDecided = []string{"completes + warnings = pipelines as a count over real runs", "which entries are missing under cancellation"}
 	a := c.protoAnchors("C02.anchor")
 	if a == nil {
